@@ -307,7 +307,14 @@ def gen_presentation(rng, aw, style=None):
         units = E_UNITS if datum == 'H' else S_UNITS
         pres['data']['%s|%s' % (key, datum)] = {
             'form': form, 'unit': rng.choice(sorted(units)),
-            'style': rng.choice(['plain', 'plain', 'plain', 'exp', 'quoted'])}
+            'style': rng.choice(['plain', 'plain', 'plain', 'exp', 'quoted',
+                                 'dot'])}
+        if datum in ('H', 'S') and rng.random() < 0.08:
+            # 'template style': the unused alternative key is written too,
+            # with an explicit null, before or after the used one
+            pres['data']['%s|%s' % (key, datum)]['null_alt'] = \
+                rng.choice(['~ before', '~ after', 'null before',
+                            'null after'])
     return pres
 
 
@@ -327,6 +334,22 @@ def styled(num, style):
             txt = '%s%se0' % ('-' if neg else '', body)
     elif style == 'quoted':
         txt = "'%s'" % txt
+    elif style == 'dot':
+        txt = dotted(txt)
+    return txt
+
+
+def dotted(txt):
+    """Hand-written spellings of a decimal: no zero before the point
+    ('.5', '-.75'), or a bare point after an integer ('7.')."""
+    if 'e' in txt or 'E' in txt or 'n' in txt:      # exponent, nan, inf
+        return txt
+    neg = '-' if txt.startswith('-') else ''
+    body = txt.lstrip('-')
+    if body.startswith('0.') and len(body) > 2:
+        return neg + body[1:]
+    if '.' not in body:
+        return neg + body + '.'
     return txt
 
 
@@ -414,16 +437,27 @@ def render(aw, pres, scheme_dir='/sim/w'):
                         nd = e[datum] / (R_GAS * tref) if datum == 'H' \
                             else e[datum] / R_GAS
                         nd = sig(nd, 15)
-                        lines.append('            ND_%s_ref: %s'
-                                     % (datum, repr(nd)))
+                        ndtxt = repr(nd)
+                        if p.get('style') == 'dot':
+                            ndtxt = dotted(ndtxt)
+                        used = '            ND_%s_ref: %s' % (datum, ndtxt)
+                        other = '            %s_ref: ' % datum
                         m[datum] = nd
                     else:
                         _, txt, si = render_value(e[datum], datum, p['form'],
                                                   p['unit'], blk,
                                                   p.get('style', 'plain'))
-                        lines.append('            %s_ref: %s' % (datum, txt))
+                        used = '            %s_ref: %s' % (datum, txt)
+                        other = '            ND_%s_ref: ' % datum
                         m[datum] = si / (R_GAS * m['T_ref']) if datum == 'H' \
                             else si / R_GAS
+                    na = p.get('null_alt')
+                    if na:
+                        word, where = na.split(' ')
+                        lines.extend([other + word, used] if where == 'before'
+                                     else [used, other + word])
+                    else:
+                        lines.append(used)
                 if e['Cp']:
                     p = pres['data']['%s|Cp' % e['key']]
                     lines.append('            %s:' % ('ND_Cp_data'
@@ -433,8 +467,11 @@ def render(aw, pres, scheme_dir='/sim/w'):
                         ttxt, tk = T(float(ts))
                         if p['form'] == 'nd':
                             nd = sig(e['Cp'][ts] / R_GAS, 15)
+                            ndtxt = repr(nd)
+                            if p.get('style') == 'dot':
+                                ndtxt = dotted(ndtxt)
                             lines.append('                - [%s, %s]'
-                                         % (ttxt, repr(nd)))
+                                         % (ttxt, ndtxt))
                         else:
                             _, txt, si = render_value(e['Cp'][ts], 'Cp',
                                                       p['form'], p['unit'],
